@@ -81,6 +81,7 @@ func intFact(atom ssa.Value, val bool, k int64, eq bool, match func(ssa.Value) b
 }
 
 func runC16(c *Ctx, r *Report) {
+	defer round8(c, r, "C16")
 	l := c.L
 	defer c16r9(c, r)
 	defer c16r10(c, r)
